@@ -174,6 +174,13 @@ def insertValue (d : Db) (cid : Nat) (name : Str) (row : Nat) (v : V) : Option D
   else if !d.hasItem cid name then none
   else some { d with values := d.values ++ [{ cid := cid, name := name, rowNum := row, val := v }] }
 
+/-- FILL_PACKET_SQL (`insert or ignore … select … from loop_item`): the explicit unknown value for every item of the loop that has
+    no value yet in row `row` (`or ignore`: an existing primary key — and the CHECK row_num > 0 — make SQLite skip the row) -/
+def fillPacket (d : Db) (cid ln row : Nat) : Db :=
+  let missing := (d.items.filter (fun i => i.cid == cid && i.loopNum == ln)).filter (fun i => !d.hasValue cid i.name row)
+  if row == 0 then d
+  else { d with values := d.values ++ missing.map (fun i => { cid := cid, name := i.name, rowNum := row, val := .unk }) }
+
 /-- UPDATE_VALUE_SQL (`insert or replace`): a row with the same primary key is deleted first -/
 def replaceValue (d : Db) (cid : Nat) (name : Str) (row : Nat) (v : V) : Option Db :=
   if row == 0 then none
@@ -489,8 +496,20 @@ def addValues (d : Db) (cid ln row : Nat) : List (Str × V) → Except Code Db
       | none => .error CIF_ERROR                                                         -- hard
       | some d1 => addValues d1 cid ln row es
 
-/-- body of cif_loop_add_packet.  NOTE (F30): nothing is stored for the loop's items that the packet omits. -/
+/-- body of cif_loop_add_packet; since fix e266ec6 (F30) the loop's items that the packet omits get the explicit unknown value
+    (FILL_PACKET_SQL after the last entry, before COMMIT_NESTTX) -/
 def addPacketBody (l : LH) (pkt : List (Str × V)) (d : Db) : Except Code (Db × Unit) :=
+  match d.bumpRowNum l.cid l.loopNum with
+  | .error msg => if msg == multipleScalarMessage then .error CIF_RESERVED_LOOP else .error CIF_ERROR
+  | .ok d1 =>
+    match d1.lastRowNum l.cid l.loopNum with
+    | none => .error CIF_INTERNAL_ERROR
+    | some row => match addValues d1 l.cid l.loopNum row pkt with
+      | .error c => .error c
+      | .ok d2 => .ok (d2.fillPacket l.cid l.loopNum row, ())
+
+/-- body of cif_loop_add_packet before fix e266ec6 (finding F30; kept for `C04_cex_F30_pinned`) -/
+def addPacketBodyPinned (l : LH) (pkt : List (Str × V)) (d : Db) : Except Code (Db × Unit) :=
   match d.bumpRowNum l.cid l.loopNum with
   | .error msg => if msg == multipleScalarMessage then .error CIF_RESERVED_LOOP else .error CIF_ERROR
   | .ok d1 =>
